@@ -507,6 +507,22 @@ func (s *Sim) CheckTx(tx []byte) abci.ResponseCheckTx {
 	return s.App.CheckTx(abci.RequestCheckTx{Tx: tx})
 }
 
+// Simulate sends the transaction through the ABCI query "app/simulate" (the message handler
+// runs on a branch of the check state that is thrown away; signatures are not verified).
+func (s *Sim) Simulate(tx []byte) abci.ResponseQuery {
+	return s.App.Query(abci.RequestQuery{Path: "app/simulate", Data: tx})
+}
+
+// Noise is off-chain activity that must have no effect on the chain: the transaction is run
+// through CheckTx and through app/simulate. It is deliberately NOT an event of the recorded
+// trace: the next recorded step is validated against the last recorded post-state, so any
+// persistent or in-memory effect of the noise shows as a step the specification rejects.
+func (s *Sim) Noise(tx []byte) (checkCode, simCode uint32) {
+	c := s.CheckTx(tx)
+	q := s.Simulate(tx)
+	return c.Code, q.Code
+}
+
 // EndBlock ends the block and applies validator updates to the accumulated set.
 func (s *Sim) EndBlock() abci.ResponseEndBlock {
 	r := s.App.EndBlock(abci.RequestEndBlock{Height: s.Height})
